@@ -483,6 +483,67 @@ def r02_6(run):
     run.count("recorded state attributes", n)
 
 
+# The log-domain family, confirmed by reading: ops/helpers that exist because the naive formula overflows.  Their exact derivative is
+# bounded by |g| for every finite operand.  (class or function qualname, number of tensor operands, why it belongs)
+LOG_DOMAIN_OPS = [
+    ("mygrad.math.exp_log.ops.Logaddexp", 2, "log(exp a + exp b): derivative is a two-element softmax in [0, 1]"),
+    ("mygrad.math.exp_log.ops.Logaddexp2", 2, "log2(2**a + 2**b): derivative in [0, 1]"),
+    ("mygrad.nnet.activations.softmax.Softmax", 1, "max-shifted softmax: values and Jacobian entries in [-1, 1]"),
+    ("mygrad.nnet.activations.softmax.LogSoftmax", 1, "x - logsumexp(x): Jacobian I - softmax"),
+    ("mygrad.nnet.activations.sigmoid.Sigmoid", 1, "1/(1+exp(-x)): derivative in [0, 1/4]"),
+    ("mygrad.nnet.losses.softmax_crossentropy.SoftmaxCrossEntropy", 1, "log-softmax based loss: gradient (softmax - onehot)/N"),
+]
+LOG_DOMAIN_HELPERS = [
+    ("mygrad.nnet.activations.softmax._softmax", "max-shifted softmax"),
+    ("mygrad.math._special.logsumexp", "max-shifted log-sum-exp"),
+    ("mygrad.nnet.layers.gru.sig", "logistic function of the GRU gates"),
+]
+
+
+def r02_7(run):
+    """finite operands and finite incoming gradients give finite, nan-free results throughout the log-domain family (extended-sign
+    abstract interpretation, sa/rules/ieee.py).  Breaks: a 'simplified' backward such as exp(a)/(exp(a)+exp(b)) or exp(x)/sum(exp(x))
+    is the same function on the reals but evaluates inf/inf or 0/0 once |x| > ~710: nan gradients exactly in the regime these ops exist for."""
+    from . import ieee
+    fx = facts(run)
+    covered = 0
+    for q, arity, why in LOG_DOMAIN_OPS:
+        cls = run.project.cls(q)
+        for fi, label, v in ieee.analyse_op(fx, cls, arity):
+            if isinstance(v, str):
+                run.ob("R02.7", loc(fi, fi.node), fi.short, f"{label} stays finite on finite operands", True, v, nontrivial=False, note="not covered")
+                run.unresolved.append(f"R02.7 {fi.short} {label}: {v}")
+                continue
+            covered += 1
+            bad = set(v.s) & ({"NAN"} if label == "forward value" else {"NAN", "PI", "NI"})
+            run.ob("R02.7", loc(fi, fi.node), fi.short, f"{label} stays finite on finite operands", not bad,
+                   f"abstract value {v}: no inf/inf, 0/0, 0*inf or inf-inf is reachable ({why})" if not bad else
+                   f"abstract value {v}: `{v.why or '?'}` can evaluate " + ("inf/inf, 0/0, 0*inf or inf-inf" if "NAN" in bad else "to an infinity") +
+                   f" for finite operands of large magnitude (exp over/underflows), although the exact derivative is bounded ({why})")
+    for q, why in LOG_DOMAIN_HELPERS:
+        fi = anchor_func(run, q)
+        v = ieee.analyse_helper(fx, fi)
+        if isinstance(v, str):
+            run.ob("R02.7", loc(fi, fi.node), fi.short, "helper value stays finite on finite operands", True, v, nontrivial=False, note="not covered")
+            run.unresolved.append(f"R02.7 {fi.short}: {v}")
+            continue
+        covered += 1
+        bad = set(v.s) & {"NAN", "PI", "NI"}
+        run.ob("R02.7", loc(fi, fi.node), fi.short, "helper value stays finite on finite operands", not bad,
+               f"abstract value {v} ({why})" if not bad else f"abstract value {v}: `{v.why or '?'}` can produce a non-finite value for finite operands ({why})")
+    run.count("log-domain bodies interpreted in the extended-sign domain", covered)
+    # discovery (listed, never judged): other bodies that exponentiate outside the family
+    fam = {q for q, _, _ in LOG_DOMAIN_OPS} | {q for q, _ in LOG_DOMAIN_HELPERS}
+    for fi in run.project.all_functions():
+        if any(fi.qualname.startswith(q) for q in fam) or "exp_log.ops.Exp" in fi.qualname or fi.qualname.endswith(("funcs.exp", "funcs.exp2", "funcs.expm1")):
+            continue
+        if any(isinstance(c, ast.Call) and (dotted(c.func) or "").split(".")[-1] in ("exp", "exp2", "expm1") and (dotted(c.func) or "").startswith(("np.", "numpy."))
+               for c in own_nodes(fi.node)):
+            run.notes.append(f"R02.7: {fi.short} exponentiates but is outside the log-domain family (its exact derivative is unbounded or it selects with where): not judged")
+    if covered < 12:
+        raise AnalysisError(f"R02.7: only {covered} log-domain bodies could be interpreted (12 expected at least): the rule has gone blind")
+
+
 def check(run):
     run.rule("R02.1", "derivative-table agreement in the term domain: for every closed-form op and operand k, the symbolic term of "
              "backward_var|index=k equals g * d(forward term)/dx_k at exact sample points of the kernel's domain (and simplifies to 0 where "
@@ -500,4 +561,9 @@ def check(run):
     r02_4(run)
     r02_5(run)
     r02_6(run)
+    run.rule("R02.7", "log-domain family (logaddexp, logaddexp2, softmax, logsoftmax, sigmoid, softmax-crossentropy, _softmax, logsumexp, gru.sig): "
+             "finite operands and gradients give finite, nan-free forward values and gradients (extended-sign abstract interpretation of exp over/underflow)", floor=14)
+    r02_7(run)
+    run.assume("R02.7: operands and incoming gradients are finite; only exponentials over/underflow (sums, products and differences of finite values are "
+               "taken to be finite); relational facts are limited to the tags MAX/GEMAX/NONPOS0/NONPOS/UNIT1/GE1 of sa/rules/ieee.py")
     run.assume("term domain: NumPy elementwise functions are identified with their mathematical definitions on the reals (table in sa/terms.py)")
